@@ -10,8 +10,8 @@ def c17_part(chk, tier, rng):
     chk.rules.append('whole-database histories with the I/O journal on: every MANIFEST record is decoded by the Lean decoders, each applied edit is replayed on the model and the layout '
                      'compared with the implementation after every edit and every reopen; crash images at every journal prefix of reopen-heavy histories must open (CURRENT atomic)')
     wl_run.run_histories(chk, n, nops, {'conforms', 'layout', 'recover', 'step'}, 'manifest-replay', journal=True)
-    fam = lambda r, db, img, nops_: crash_gen.history(r, db, img, nops_, '0134', False, 60 if tier == 'quick' else 300)
-    wl_run.run_histories(chk, 4 if tier == 'quick' else 60, 25, {'crashopen', 'conforms'}, 'current-switch-crashes', family=fam)
+    fam = lambda r, db, img, nops_: crash_gen.history(r, db, img, nops_, '014', False, 30 if tier == 'quick' else 300)
+    wl_run.run_histories(chk, 4 if tier == 'quick' else 60, 20 if tier == 'quick' else 25, {'crashopen', 'conforms'}, 'current-switch-crashes', family=fam)
 
 
 def c04_part(chk, tier, rng):
@@ -19,8 +19,8 @@ def c04_part(chk, tier, rng):
     import wl_run, crash_gen
     chk.rules.append('crash images (kill and power-loss variants) of histories with multi-operation batches spanning several 32 KiB log blocks: the recovered contents must be those of a '
                      'set of whole batches (the crash oracle builds its reference from whole batches only)')
-    fam = lambda r, db, img, nops_: crash_gen.history(r, db, img, nops_, '034', False, 50 if tier == 'quick' else 300)
-    wl_run.run_histories(chk, 6 if tier == 'quick' else 80, 30, {'crashview', 'crashinvented', 'crashopen'}, 'batch-crash-atomicity', family=fam)
+    fam = lambda r, db, img, nops_: crash_gen.history(r, db, img, nops_, '03', False, 30 if tier == 'quick' else 300)
+    wl_run.run_histories(chk, 4 if tier == 'quick' else 80, 22 if tier == 'quick' else 30, {'crashview', 'crashinvented', 'crashopen'}, 'batch-crash-atomicity', family=fam)
 
 
 def c20_part(chk, tier, rng):
